@@ -105,7 +105,7 @@ def run(model, rep):
                        'prefixed candidate name is what is tested and returned. Not decided: leakage through data rather than through a missing gate.')
     for r, t in [('C04.OWN1', 'no store to an external identifier field'), ('C04.OWN2', 'binding identifier fields written only by Binding.rename implementations'),
                  ('C04.PIN', 'pins on all paths (enumerated)'), ('C04.ARG', 'in-signature rename only where callers cannot pass by keyword (enumerated)'),
-                 ('C04.GLOB', 'global gate and underscore prefix')]:
+                 ('C04.GLOB', 'global gate and underscore prefix'), ('C04.SCOPE', 'names the interpreter binds at module level are filed under the module (and so governed by the global gate)')]:
         rep.rule(r, t)
     # classification must cover the ASDL of this interpreter
     for (c, f, q) in identifier_fields():
@@ -125,6 +125,7 @@ def run(model, rep):
     rep.ok('C04.OWN1', 'synthetic control', 'control module with stores to Attribute.attr, keyword.arg, alias.name', 'all 3 planted stores reported', key='C04|control', trivial=True)
     pins(model, rep)
     arg(model, rep)
+    scope(model, rep)
     glob(model, rep)
 
 
@@ -412,6 +413,36 @@ def rename_enum(model, rep):
     rep.check(not bad_kw, 'C04.ARG', fi.loc(), 'rename evaluated on parameters that are not renamable in place', 'the signature keeps the spelling (the new name is bound in the body)',
               '; '.join(bad_kw[:3]), key='C04.ARG|rename-enum|signature', cells=4)
     rep.check(not bad_new, 'C04.ARG', fi.loc(), 'rename evaluated on %d reference kinds: binding fields' % n_cells, 'carry the new name', '; '.join(bad_new[:3]), key='C04.ARG|rename-enum|new', cells=n_cells)
+
+
+SCOPE_PROBE = '''
+[(m_gw1 := m_gv1) for t in m_gi1]
+[[(m_gw2 := m_gv2) for a in m_gi2] for b in m_gi3]
+{k: [(m_gw3 := k) for a in m_gi4] for k in m_gi5}
+m_gx = [(m_gw4 := t) for t in m_gi6 if (m_gw5 := t)]
+'''
+
+
+def scope(model, rep):
+    """An assignment expression inside comprehensions at module level binds a *module-level* name (visible to importers). The mapper and binder,
+    run on a probe, must file that binding under the module - otherwise it is renamed as if it were a local, whatever rename_globals says."""
+    from .c03 import _ToGen, binder_places, run_mapper
+    from .. import oracles
+    ref_src = ast.unparse(ast.fix_missing_locations(_ToGen().visit(ast.parse(SCOPE_PROBE))))
+    mod, markers = run_mapper(model, SCOPE_PROBE)
+    n = 0
+    for m in sorted(markers):
+        node = markers[m]
+        par = node.attrs.get('_parent')
+        if not (isinstance(par, Obj) and par.cls == 'NamedExpr' and par.attrs.get('target') is node):
+            continue
+        want = oracles.binding_scope(ref_src, m)
+        placed = binder_places(model, mod, node)
+        n += 1
+        rep.check(placed == want == (), 'C04.SCOPE', 'src/python_minifier/rename/bind_names.py', 'module-level comprehension: binding of %s' % m,
+                  'filed under the module', 'the interpreter binds %s at module level, the binder files it under %s: the name is renamed like a local although other modules can import it' %
+                  (m, '/'.join(placed) if placed else repr(placed)), key='C04.SCOPE|' + m)
+    rep.floor('C04.SCOPE', 5, n)
 
 
 def glob(model, rep):
